@@ -242,6 +242,14 @@ impl Session {
                 break;
             }
         }
+        // every table handle and iterator of the session is dropped here: nothing but `base` may still refer to
+        // the block cache (a cached block that keeps the cache alive is a leak of the cache and all its entries)
+        drop(iters);
+        drop(tables);
+        let holders = Arc::strong_count(&base.block_cache);
+        if holders != 1 {
+            LEAKED_CACHES.with(|c| c.set(c.get() + 1));
+        }
         out
     }
 }
@@ -308,12 +316,21 @@ fn project(out: &str, c: Cmp) -> &str {
     }
 }
 
+thread_local! {
+    /// sessions after which the block cache was still referenced although every handle had been dropped
+    pub static LEAKED_CACHES: std::cell::Cell<u64> = std::cell::Cell::new(0);
+}
+
 /// run a session on both sides; returns (implementation's per-op outputs, model's per-op outputs)
 pub fn compare_full(d: &mut Driver, rep: &mut Report, s: &Session, what: Cmp) -> (Vec<String>, Vec<String>) {
     let req = s.request();
     let model = d.ask(&req);
     set_case(&req);
+    let before = LEAKED_CACHES.with(|c| c.get());
     let imp = s.run_impl();
+    if LEAKED_CACHES.with(|c| c.get()) != before {
+        rep.judge_fail(J::obj(vec![("what", J::s("after every table handle and iterator of the session was dropped the block cache is still referenced by something it contains: the cache and its entries are never freed")), ("request", J::s(&if req.len() > 3000 { format!("{}…", &req[..3000]) } else { req.clone() }))]));
+    }
     let m: Vec<String> = model.split(';').map(|x| x.to_string()).collect();
     let same = m.len() == imp.len() && m.iter().zip(imp.iter()).all(|(a, b)| project(a, what) == project(b, what));
     if !same {
